@@ -274,6 +274,10 @@ def run(chk):
 
     raws = tlc(chk, "quick" if tier == "quick" else "thorough", 3, workers=8 if tier == "quick" else None).cases
     cases = make_cases(raws, "s")
+    # style histories: all sequences of 3 (thorough: 4) style changes followed by one shape
+    hist = tlc(chk, "hist", 4 if tier == "quick" else 5, workers=8, label="FamSvg/hist")
+    have0 = {c["src"] for c in cases}
+    cases += [c for c in make_cases(hist.cases, "h") if c["src"] not in have0]
     if tier != "quick":
         have = {c["src"] for c in cases}
         for n in (5, 4):
